@@ -190,7 +190,7 @@ def jobs(tier):
 
 # a successful save loads back: key files of their own one and two levels down, and a process environment in which
 # every variable the schema is bound to exists but is empty
-VARIANTS = ["key-on-sub", "key-on-deep", "key-on-sub-and-deep", "env-empty", "env-empty+key-on-deep", "format-options", "after-masked-render", "key-home-relative", "with-include"]
+VARIANTS = ["key-on-sub", "key-on-deep", "key-on-sub-and-deep", "env-empty", "env-empty+key-on-deep", "format-options", "after-masked-render", "key-home-relative", "with-include", "format-options+with-include", "bytes-keys"]
 OPTIONS = {"json": {"pretty": False}, "yaml": {"root_key": "CFG"}, "xml": {"root_tag": "settings"}, "bson": {}, "pickle": {}}
 
 
@@ -210,9 +210,15 @@ def _loadback(job, ctx):
         shutil.copy(keys["root"], os.path.join(core.home_dir(), "c19-root.key"))
         keys["root"] = "~/c19-root.key"
     schema = build(env="C19ENV" if "env-empty" in variant else None)
-    if variant == "with-include":
+    if "with-include" in variant:
         import cincoconfig as _cc
         schema.include = _cc.IncludeField(startdir=tmp)
+    if variant == "bytes-keys":
+        # typed dicts whose *keys* have an on-disk form of their own
+        import cincoconfig as _cc
+        schema.bk = _cc.DictField(_cc.BytesField(), _cc.IntField())
+        schema.bkh = _cc.DictField(_cc.BytesField("hex"), _cc.StringField())
+        schema.sub.lbk = _cc.ListField(_cc.DictField(_cc.BytesField(), _cc.BytesField()))
     if "env-empty" in variant:
         for name in W.env_names(schema):
             os.environ[name] = ""
@@ -239,26 +245,32 @@ def _loadback(job, ctx):
                     ident = [state, fmt, into]
                     if only is not None and only != ident:
                         continue
+                    if variant == "bytes-keys" and fmt == "xml":
+                        continue        # encoded keys (base64 / hex text) are not XML names: outside that format's domain
                     cfg = setup()
                     tree = _copy(STATES[state])
                     if "b" in tree:
                         import base64
                         tree["b"] = base64.b64decode(tree["b"])
                     assign(cfg, tree)
-                    if variant == "with-include":
+                    if variant == "bytes-keys":
+                        cfg.bk = {b"hello": 1, b"\xff\x00": 2}
+                        cfg.bkh = {b"k": "v"}
+                        cfg.sub.lbk = [{b"a": b"b"}, {}]
+                    if "with-include" in variant:
                         # the configuration names an include file that restates one value two levels down of what is saved: the
                         # saved document carries the include, so loading it merges that file into what the document says
                         if cfg.sub.c is None:
                             cfg.sub.c = "inc"
                         cfg.sub.deep.n = 7
                         with open(os.path.join(tmp, "c19-part.inc"), "wb") as fh:
-                            fh.write(cc.ConfigFormat.get(fmt).dumps(None, {"sub": {"c": cfg.sub.c, "deep": {"n": 7}}}))
+                            fh.write(cc.ConfigFormat.get(fmt, **(OPTIONS[fmt] if "format-options" in variant else {})).dumps(None, {"sub": {"c": cfg.sub.c, "deep": {"n": 7}}}))
                         cfg.include = "c19-part.inc"
                     dest = os.path.join(tmp, "lb.cfg")
                     ctx.transitions += 1
                     case = _case(job, ident)
                     fp = "C19|loadback|%s|%s|%s|" % (variant, fmt, into)
-                    opts = OPTIONS[fmt] if variant == "format-options" else {}
+                    opts = OPTIONS[fmt] if "format-options" in variant else {}
                     try:
                         if variant == "after-masked-render":
                             # the same object was rendered for display first (masked, with virtual fields): none of that may stick
